@@ -209,21 +209,23 @@ structure ListEntry where
   lastChange : Int
   deriving Repr, DecidableEq
 
+/-- One iteration of the loop in `Dir.List`. none = an error was returned. -/
+def listStep (c : Cfg) (acc : Option (List ListEntry)) (e : Bytes × Node) : Option (List ListEntry) :=
+  match acc with
+  | none => none
+  | some l =>
+    if e.1 = tmpName then some l
+    else match checkUserFile e.1 with
+      | none => none
+      | some (valid, u, adm) =>
+        if !valid then some l
+        else
+          let r := supportedFull c e.2
+          if !r.1 then some l else some (l.filter (·.user ≠ u) ++ [⟨u, adm, r.2.2.1⟩])
+
 /-- `Dir.List` over the entries in the order `readdir` returned them (later entries of the
     same user overwrite earlier ones, as in a Go map). none = error. -/
-def list (c : Cfg) (d : Dir) : Option (List ListEntry) :=
-  d.foldl (fun acc (n, x) =>
-    match acc with
-    | none => none
-    | some l =>
-      if n = tmpName then some l
-      else match checkUserFile n with
-        | none => none
-        | some (valid, u, adm) =>
-          if !valid then some l
-          else
-            let (ok, _, ts, _) := supportedFull c x
-            if !ok then some l else some (l.filter (·.user ≠ u) ++ [⟨u, adm, ts⟩])) (some [])
+def list (c : Cfg) (d : Dir) : Option (List ListEntry) := d.foldl (listStep c) (some [])
 
 structure FullEntry where
   user : Bytes
